@@ -61,6 +61,7 @@ type Event struct {
 	Target                   []int
 	Acc                      bool
 	QLen                     int
+	ResStr                   string
 }
 
 func (e *Event) mutStr() string {
@@ -98,6 +99,8 @@ func (e *Event) String() string {
 		return fmt.Sprintf("MQ(%s)", e.mutStr())
 	case "QE":
 		return "QE"
+	case "N":
+		return fmt.Sprintf("N(%s:%s:%s|%d|%s)", e.MutKind, showList(e.Called), b(e.HasArgs), e.QLen, e.ResStr)
 	}
 	return "?"
 }
@@ -312,7 +315,9 @@ func (r *Runner) runHandler(bind int, name string, e *am.Event) bool {
 	r.push(Event{Kind: "H", Bind: bind, HName: name,
 		Active: r.idx(e.Machine().ActiveStates(nil))})
 	for _, q := range muts {
-		r.issue(q)
+		ql := int(r.M.QueueLen())
+		res := r.issue(q)
+		r.push(Event{Kind: "N", MutKind: q.kind, Called: q.states, HasArgs: q.hasArgs, QLen: ql, ResStr: resStr(res)})
 	}
 	switch act {
 	case "f":
